@@ -185,3 +185,103 @@ def lock_graph(ctx):
                                     g.qualname if isinstance(g, Func)
                                     else g)))
     return edges, regions
+
+
+# mutable attributes of the lock-owning classes that need no lock, one line
+# of reason each; the census verifies the reason (no mutation outside the
+# constructor)
+READONLY_AFTER_INIT = {
+    ('Cache', '_func_versions'):
+        'the version map is only read (.get) and serialised after '
+        'construction',
+    ('Cache', '_operation_versions'):
+        'only read (.get) and serialised after construction',
+}
+MUTABLE_CTORS = {'dict', 'list', 'set', 'bytearray', 'defaultdict', 'deque',
+                 'OrderedDict', 'Counter', 'array', 'memoryview'}
+MUTATORS = {'update', 'add', 'pop', 'clear', 'remove', 'discard',
+            'setdefault', 'append', 'extend', 'insert', 'popitem', 'sort',
+            'reverse', 'appendleft', 'popleft'}
+
+
+def shared_state_census(ctx, rc, classes=None):
+    """Every attribute of a lock-owning (thread-shared) class that holds a
+    mutable container or buffer is either in the guarded-field table (then
+    the lockset rule covers every access) or provably read-only after
+    construction.  A new scratch buffer or memo added to such a class is
+    reported until it is classified."""
+    prog = ctx.prog
+    n = 0
+    for cname in classes or sorted(GUARDS):
+        init = prog.lookup_method(cname, '__init__')
+        if init is None:
+            raise AnalysisError('no constructor for ' + cname)
+        tbl = GUARDS[cname]
+        seen = set()
+        for a in ast.walk(init.node):
+            if not isinstance(a, ast.Assign):
+                continue
+            for t in a.targets:
+                if not (isinstance(t, ast.Attribute) and isinstance(
+                        t.value, ast.Name) and
+                        t.value.id == init.self_name):
+                    continue
+                v = a.value
+                ts = prog.type_of(v, init)
+                mutable = isinstance(v, (
+                    ast.Dict, ast.List, ast.Set, ast.ListComp, ast.SetComp,
+                    ast.DictComp)) or (
+                        isinstance(v, ast.Call) and ast.unparse(
+                            v.func).split('.')[-1] in MUTABLE_CTORS) or bool(
+                                ts & {'ext:dict', 'ext:list', 'ext:set',
+                                      'ext:bytearray'})
+                if not mutable or t.attr in seen:
+                    continue
+                seen.add(t.attr)
+                n += 1
+                key = 'shared mutable attribute %s.%s' % (cname, t.attr)
+                if t.attr in tbl:
+                    rc.ok({'attribute': key, 'lock': tbl[t.attr]}, key=key)
+                    continue
+                if (cname, t.attr) in READONLY_AFTER_INIT:
+                    bad = _mutation_outside_init(ctx, cname, t.attr)
+                    if bad is None:
+                        rc.ok({'attribute': key, 'read_only':
+                               READONLY_AFTER_INIT[(cname, t.attr)]}, key=key)
+                    else:
+                        rc.violation(
+                            'shared-state | %s.%s' % (cname, t.attr),
+                            '%s.%s is listed as read-only after construction '
+                            'but is modified in %s' % (
+                                cname, t.attr, bad[0].qualname),
+                            prog.loc(bad[0], bad[1]), key=key)
+                    continue
+                rc.violation(
+                    'shared-state | %s.%s' % (cname, t.attr),
+                    '%s objects are shared by all threads of a build; the '
+                    'mutable attribute .%s (%s) is not guarded by a lock of '
+                    'the class: two threads using it at the same time read '
+                    'each other\'s data' % (
+                        cname, t.attr, ast.unparse(v)[:40]),
+                    prog.loc(init, a), key=key)
+    if n < (10 if classes is None else 1):
+        raise AnalysisError('only %d shared mutable attributes found' % n)
+
+
+def _mutation_outside_init(ctx, cname, attr):
+    prog = ctx.prog
+    for f, n, cns in accesses(ctx, cname, {attr}):
+        if f.name == '__init__':
+            continue
+        par = prog.parent(n)
+        if isinstance(n.ctx, (ast.Store, ast.Del)):
+            return f, n
+        if isinstance(par, ast.Subscript) and isinstance(
+                par.ctx, (ast.Store, ast.Del)):
+            return f, n
+        if isinstance(par, ast.AugAssign) and par.target is n:
+            return f, n
+        if isinstance(par, ast.Attribute) and par.attr in MUTATORS and \
+                isinstance(prog.parent(par), ast.Call):
+            return f, n
+    return None
